@@ -531,7 +531,7 @@ namespace xv
         void add_detailed(Violation&& v)
         {
             std::lock_guard<std::mutex> g(mu);
-            if (detailed.size() < 600)
+            if (detailed.size() < 4000)
                 detailed.push_back(std::move(v));
         }
     };
@@ -581,6 +581,7 @@ namespace xv
         std::string name;
         std::string prop;
         long param = 0;
+        bool skip_nan_inputs = false; // C17 speaks about non-NaN scalars only
         std::vector<Impl> impls;
         // statistics
         std::atomic<uint64_t> points { 0 }, compared { 0 }, skipped { 0 }, nontrivial { 0 }, mismatches { 0 };
@@ -716,6 +717,17 @@ namespace xv
                 int ref_lanes = O.impls.empty() ? 1 : O.impls.front().op->lanes;
                 RefArgs ra { &sig, use_in, e1, e2, flags, n, O.param, ref_lanes };
                 O.spec->ref[sig.elem](ra);
+                if (O.skip_nan_inputs)
+                    for (int k = 0; k < sig.nin; ++k)
+                    {
+                        const int it = sig.in_t[k];
+                        if (!is_fp_type(it))
+                            continue;
+                        const int isz = xv_type_size[it];
+                        for (size_t i = 0; i < n; ++i)
+                            if (bits_is_nan(load_bits((const char*)use_in[k] + i * (size_t)isz, isz), it))
+                                flags[i] |= F_SKIP;
+                    }
                 // statistics on the reference result
                 {
                     uint64_t sk = 0, nt = 0;
@@ -822,7 +834,7 @@ namespace xv
                             uint64_t cnt = ++O.vc[ii * O.nslots + (size_t)slot];
                             if (slot == 0 && cnt > 4096)
                                 O.saturated[ii] = 1;
-                            if (cnt > 2)
+                            if (cnt > (slot ? 1u : 2u))
                                 continue;
                             // capture the whole batch
                             Violation v;
